@@ -19,6 +19,7 @@ from ..ref import meta as rmeta
 from ..ref import midi1
 
 ID = 'C15'
+ANCHORS = ['mido.frozen', 'mido.messages.messages']
 LEVEL = 'exploration'
 RULE = ('messages of all three classes (18 Message types at boundary + random values, all 17 '
         'known meta types, unknown meta) x override sets (none, time only valid/invalid, each '
